@@ -38,6 +38,8 @@ FLOORS = {"cache-file": 20, "registry-json": 60, "record-header": 7, "multiaddr"
 
 
 def run(R):
+    from serdepair import serde_agreement
+    serde_agreement(R, "C17.serde.pairs", ["ant_service_management::NodeRegistry", "ant_bootstrap::cache_store::CacheData"], 12)
     # formatter / parser pair of the registry file: what save() writes is what load() parses (the file is replaced whole)
     R.whole_file_write("C17.registry.whole", "ant_service_management::NodeRegistry::save", "NodeRegistry::save replaces the registry file whole")
     for name, entries in ENTRIES.items():
